@@ -444,7 +444,7 @@ def run(rep, tier, seed, only=None):
         "A-np: numpy object-dtype arithmetic is the real reading of float64 arithmetic",
     )
     rep.stub("Combiner: eko nf_default -> enumerated nf (contract: C06)", "CouplingConstants.get_weight -> uninterpreted w (kernel-level lemmas)")
-    secs = [("decoupling", sec_decoupling), ("decouplingcard", sec_decoupling_via_card), ("positron", sec_positron), ("cc", sec_cc_conjugation), ("cctargets", sec_cc_conjugation_targets), ("flavour", sec_flavour_symmetry), ("tagged", sec_flavour_symmetry_tagged), ("xsconj", sec_xs_conjugation), ("svprojectors", sec_sv_projectors), ("realruns", lambda r: sec_real_runs(r, tier))]
+    secs = [("decoupling", sec_decoupling), ("decouplingcard", sec_decoupling_via_card), ("positron", sec_positron), ("cc", sec_cc_conjugation), ("cctargets", sec_cc_conjugation_targets), ("flavour", sec_flavour_symmetry), ("tagged", sec_flavour_symmetry_tagged), ("xsconj", sec_xs_conjugation), ("svprojectors", sec_sv_projectors), ("weightshistory", H.weights_same_object_history), ("realruns", lambda r: sec_real_runs(r, tier))]
     for nm, f in secs:
         if only and only not in nm:
             continue
